@@ -41,5 +41,15 @@ CHECKS = {
         "note": "Trusted: mc/oracles/shapes.py (int64 arithmetic), numpy. Ellipsoidal shells only for even thickness (the statement does not fix the odd case); soft masks judged on range and outward core only.",
         "technique": "bounded-exhaustive enumeration of mask parameters and complete truth tables on the implementation against exact analytic oracles",
     },
+    "C14": {
+        "text": "All 64 right-angle zxz triples x every interior voxel of 5^3 and 6^3 boxes (thorough 7^3, 8^3) as deltas and as whole code volumes (exact permutation c+R(v-c)); the convention link rotate <-> Motl.get_rotations <-> shift_positions on a 30-degree (thorough 15-degree) Euler lattice of blobs; place_object for 24 cube poses x 29 positions (inside/clipped/outside) x colour fields x (x,shift) splits x forms against an independent stamping routine, all 2- and 3-particle overlapping lists; every integer and half-integer window centre of a (5,6,7) volume; symmetrisation for n = 2..12.",
+        "note": "Trusted: mc/oracles/so3.py, an independent 15-line stamping routine, numpy. Interpolated (non-right-angle) poses only through centre-of-mass / L2 claims (2.6); non-right-angle poses and odd templates in place_object are not judged.",
+        "technique": "bounded-exhaustive enumeration of rotations x voxels / poses x positions / window centres on the implementation against explicit-matrix and indexing oracles",
+    },
+    "C20": {
+        "text": "Every scene built from subsets (<= 3) of 3 source sites with every assignment of 5 normal kinds x subsets (<= 3) of 5 target sites (thorough: 4 and 6 sites) x 4 cone angles x 7 (thickness, voxel) settings x presentations (direction, labelling, index layout, decoy point); the whole scene under the 24 cube rotations + generic rotations with translation; voxel scaling; direction swap; the numba candidate kernel against the same admissibility predicate. Genericity (no angle within 1e-3 deg of a cone limit, no distance within 1e-6 of the range, no distance ties) is proven by brute force whenever the palette is built.",
+        "note": "Trusted: the admissibility predicate and greedy-stability clauses in mc/props/C20.py (numpy), mc/oracles/so3.py. Scenes of at most 3+3 points; the CUDA kernel cannot run here; the 25-candidate cap is outside the quantifier.",
+        "technique": "bounded-exhaustive enumeration of small point scenes and configurations on the implementation against an independent admissibility/stability oracle",
+    },
 }
 NOT_APPLICABLE = {}
